@@ -3,6 +3,7 @@
    [classes] / [init_order] are REGENERATED from x/*/{module.go,genesis.go,keeper,types} and
    app/app.go on every run (Gen/GenesisCoverage.v); the audited list [audited] (derived indexes,
    known lost classes, transient queues) lives in Model/Genesis.v. *)
+From Coq Require Import Permutation.
 From Sekai Require Import Base.Prelude Gen.GenesisCoverage Model.Genesis Model.C12Check Proofs.Genesis.
 Open Scope Z_scope.
 
@@ -161,6 +162,42 @@ Theorem C12_reimport_with_counters_fresh_pool_id : forall s v,
   let s' := new_pool (reimport_ms true s) v in ~ In (last_pool s') (map fst (pools s)).
 Proof. exact reimport_with_counters_fresh_pool_id. Qed.
 Print Assumptions C12_reimport_with_counters_fresh_pool_id.
+
+(* ---- metamorphic obligation on import: the state InitGenesis builds does not depend on the order of the
+   entries of the genesis lists.  Multistaking, for ANY permutation: same counters (max id), same records *)
+Theorem C12_import_multistaking_order_independent : forall ctr ps ps' us us', Permutation ps ps' -> Permutation us us' ->
+  last_pool (import_ms ctr (ps', us')) = last_pool (import_ms ctr (ps, us)) /\
+  last_undel (import_ms ctr (ps', us')) = last_undel (import_ms ctr (ps, us)) /\
+  Permutation (pools (import_ms ctr (ps, us))) (pools (import_ms ctr (ps', us'))) /\
+  Permutation (undels (import_ms ctr (ps, us))) (undels (import_ms ctr (ps', us'))).
+Proof. exact import_ms_order_independent. Qed.
+Print Assumptions C12_import_multistaking_order_independent.
+
+(* a counter taken from the last list entry (seeded change C03-c) depends on the order; on the unsorted
+   list the next undelegation of account 30 overwrites the imported undelegation 2 of account 10, which the
+   max-id import keeps *)
+Theorem C12_import_lastentry_counter_order_dependent :
+  exists ps us us', Permutation us us' /\
+    last_undel (import_ms_lastentry (ps, us)) <> last_undel (import_ms_lastentry (ps, us')) /\
+    zlookup 2 (undels (import_ms_lastentry (ps, us'))) = Some 10 /\
+    zlookup 2 (undels (undelegate (import_ms_lastentry (ps, us')) 30)) = Some 30 /\
+    zlookup 2 (undels (undelegate (import_ms true (ps, us')) 30)) = Some 10.
+Proof. exact import_ms_lastentry_order_dependent. Qed.
+Print Assumptions C12_import_lastentry_counter_order_dependent.
+
+Theorem C12_import_proposals_order_independent : forall rebuild now ps ps' n id, Permutation ps ps' ->
+  (In id (active_q (import_props rebuild now (ps', n))) <-> In id (active_q (import_props rebuild now (ps, n)))) /\
+  (In id (enact_q (import_props rebuild now (ps', n))) <-> In id (enact_q (import_props rebuild now (ps, n)))) /\
+  Permutation (proposals (import_props rebuild now (ps, n))) (proposals (import_props rebuild now (ps', n))).
+Proof. exact import_props_order_independent. Qed.
+Print Assumptions C12_import_proposals_order_independent.
+
+Theorem C12_import_roles_order_independent : forall blk rs rs' pm pm' n, NoDup (map fst pm) ->
+  Permutation rs rs' -> Permutation pm pm' ->
+  Permutation (registry (import_roles blk (mkRolesGen rs pm n))) (registry (import_roles blk (mkRolesGen rs' pm' n))) /\
+  (forall id, lookup_perms id pm' = lookup_perms id pm).
+Proof. exact import_roles_order_independent. Qed.
+Print Assumptions C12_import_roles_order_independent.
 
 (* ---- gov identity registrar: records, counter and the by-address index (as a set) round-trip for every
    well-formed state; the well-formedness is needed (a dangling index entry is not rebuilt) *)
